@@ -38,6 +38,8 @@ cp /verif/known_findings.json "$work/vd/"
 ( cd "$work/sim" && cargo build --release --offline >"$work/build.log" 2>&1 ) || { echo "harness_build=FAIL" >> $res; tail -20 "$work/build.log"; }
 bin="$work/sim/target/release/gsesim"
 props=$(python3 -c "import json;print(' '.join(c['property_id'] for c in json.load(open('/verif/MANIFEST.json'))['checks']))")
+# SEED_PROPS=own limits the run to the change's own property (fast triage); SEED_PROPS="C01 C04" to a list
+if [ "${SEED_PROPS:-}" = own ]; then props="$id"; elif [ -n "${SEED_PROPS:-}" ]; then props="$SEED_PROPS"; fi
 caught=""; silent=""
 for p in $props; do
   out=$(VERIF_DIR="$work/vd" "$bin" check $p $tier 2>&1); rc=$?
